@@ -434,6 +434,24 @@ StateClauses(h) ==
     \cup (IF Terminal(h) /\ WellFormed(h) /\ RPhase(h) # "nomark" THEN PlacesFail(h) ELSE {})
 
 \* ---- C08 clauses of a state ----
+\* ---- the derived, read-only views of highjump.py: trials (a function of the action log: every trial with the bar
+\* height in force when it was taken), remaining / eliminated athletes in jumping order, is_finished, is_running
+RECURSIVE TrialsF(_, _)
+TrialsF(log, bar) ==
+    IF log = <<>> THEN <<>>
+    ELSE LET e == Head(log) IN
+         IF e.op = "bar" THEN TrialsF(Tail(log), e.h)
+         ELSE IF e.op \in Letters THEN <<<<e.b, bar, e.op>>>> \o TrialsF(Tail(log), bar)
+         ELSE TrialsF(Tail(log), bar)
+Views(h) == [ok |-> TRUE, trials |-> TLCEval(TrialsF(h.log, 0)),
+             rem |-> SelectSeq(h.order, LAMBDA b : ~h.j[b].elim), eli |-> SelectSeq(h.order, LAMBDA b : h.j[b].elim),
+             fin |-> h.state \in {"finished", "won", "drawn"}, run |-> h.state \in {"started", "jumpoff"}]
+\* every recorded trial was taken at a height that had been set, by a registered athlete, and the trials of one athlete
+\* spell that athlete's card
+TrialsSpellCards(h) ==
+    LET T == TrialsF(h.log, 0) IN
+    \A b \in DOMAIN h.j : SelectSeq([i \in DOMAIN T |-> IF T[i][1] = b THEN T[i][3] ELSE ""], LAMBDA m : m # "") = Flat(h.j[b].card)
+
 ObsNoLog(h) == [Obs(h) EXCEPT !.log = <<>>]
 \* explicit pass marks aside: erase '-' and then trailing empty cells
 StripPass(card) ==
